@@ -221,7 +221,8 @@ theorem verifyPrimaryProof_NP (o : GroupOps G) (ho : OpsNP o) (m : OvfMode) (pk 
     (eq : EqProof G) (ne : List (NeProof G)) (c : Int) (un : List String)
     (h : ∀ p ∈ ne, C03.I32 p.pred.value) : NP (verifyPrimaryProof o m pk eq ne c un) := by
   unfold verifyPrimaryProof
-  exact NP_bind (verifyEquality_NP o ho pk eq c un) fun _ => NP_map (verifyNeAll_NP o ho m pk c _ ne h)
+  exact NP_bind (verifyEquality_NP o ho pk eq c un) fun _ =>
+    NP_ite NP_err (NP_map (verifyNeAll_NP o ho m pk c _ ne h))
 
 theorem commonPass_NP (common : List String) (eq : EqProof G) :
     ∀ (as : List String) (seen : List (String × Int)), NP (commonPass common eq seen as) := by
